@@ -23,7 +23,7 @@ META = {
         'kind a literal alternative can build, the head of its repr resolves in the exec namespace to the class '
         'that built it; (D6) the row loop keeps order, appends exactly on truth, stops at limit, carries '
         'version/metadata/columns; (D7) references are followed only on non-final segments, through the id index; '
-        '(D8) the literal sub-grammar agrees with its ZINC sibling (token languages and unescape step).  (D8) text chain: the filter text reaches hs_filter.parseString unchanged through filter_function, _filter_function and parse_filter.  Not decided: '
+        '(D8) the literal sub-grammar agrees with its ZINC sibling (token languages and unescape step).  (D8) text chain: the filter text reaches hs_filter.parseString unchanged through filter_function, _filter_function and parse_filter.  (D7 also) the id index that `->` dereferencing uses is rebuilt/updated on every mutation (clauses shared with C15.D1/D3).  Not decided: '
         'semantic equivalence of compiled code and filter over all programs x data as an execution; spacing variants.'),
     'rule_text': 'obligations = grammar-structure facts, fold index coverage, operator-table rows, sentinel methods, '
                  'literal kinds x resolvability, generator branches, loop facts, sibling pairs',
@@ -52,6 +52,13 @@ def run(ctx):
     _get_path(ctx, m)
     _siblings(ctx, m, g)
     _text_chain(ctx, m)
+    # `a->b` resolves the reference through the grid's id index: the index must describe the rows currently in the
+    # grid after every mutation (clauses shared with C15.D1/D3)
+    from . import _grid
+    meths = _grid.grid_methods(ctx)
+    _grid.index_pairing(ctx, meths, 'C11.D7')
+    _grid.reindex_shape(ctx, meths, 'C11.D7')
+    _grid.lookups(ctx, meths, 'C11.D7')
 
 
 TEXT_REWRITERS = ('split', 'join', 'lower', 'upper', 'replace', 'sub', 'translate', 'casefold', 'title', 'swapcase',
